@@ -5,6 +5,9 @@
 (*          (99: a value that is in none of the parameter's table entries)        *)
 (*   oth    1 iff every OTHER registered parameter of the model reads as it did   *)
 (*          when the object was built                                             *)
+(*   dflt   1 iff a SECOND model, constructed right now with every constructor     *)
+(*          argument left at its default, reads the documented defaults (writes   *)
+(*          to one object never reach another: no shared mutable defaults)        *)
 (* [ev |-> "init", cfg, rd]            the model is built from cfg (constructor   *)
 (*                                     arguments, defaults omitted or not) and    *)
 (*                                     reads rd                                   *)
@@ -33,6 +36,7 @@ Step ==
                              [] e.ev = "set" /\ e.rd[e.d] # e.v -> "ReadYourWrite"
                              [] e.ev = "set" /\ e.rd # r1 -> "FrameRule"
                              [] e.ev = "set" /\ e.oth # 1 -> "FrameRule-other"
+                             [] e.ev = "set" /\ e.dflt # 1 -> "FrameRule-other-object"
                              [] e.ev = "eval" /\ (e.rd # r0 \/ e.oth # 1) -> "RunIsPure"
                              [] e.ev = "eval" /\ e.dig # e.fresh -> "EqualsFresh"
                              [] OTHER -> "ok"
